@@ -384,6 +384,16 @@ func (fs *fsMutable) Rename(ctx context.Context, op *fuseops.RenameOp) (err erro
 	fs.insertReadDirEntry(op.NewParent, &newRC)
 	fs.insertLookupEntry(op.NewParent, op.NewName, l.(lookupEntry))
 
+	// a directory carries a link ("..") to its parent: it moves along
+	if rC.Type == fuseutil.DT_Directory && op.OldParent != op.NewParent {
+		if p, ok := fs.iNodeStore.Get(formKey(op.OldParent)); ok {
+			p.(*nodeEntry).attr.Nlink--
+		}
+		if p, ok := fs.iNodeStore.Get(formKey(op.NewParent)); ok {
+			p.(*nodeEntry).attr.Nlink++
+		}
+	}
+
 	return nil
 }
 
